@@ -167,6 +167,21 @@ theorem open_total (bs : Bytes) :
   rw [e, negotiate_append, negotiate_encode _ h2 {} rfl, negotiate_pending _ rfl _ h3]
   simp
 
+/-- the statement the correspondence harness evaluates per case (`dom` = `inDomain`): on a complete
+stream of data, negotiations, two-byte commands NOP…GA and escaped IAC the parser ends idle with
+the tokenizer's data and answers. -/
+theorem in_domain_spec (bs : Bytes) (h : inDomain bs = true) :
+    openWith bs =
+      { ctrl := [], data := delivered (tokenize bs).1, replies := answers (tokenize bs).1 } := by
+  have hp : (tokenize bs).2 = [] := by
+    simp only [inDomain, Bool.and_eq_true, List.isEmpty_iff] at h
+    exact h.1
+  rw [open_total bs, hp]
+
+/-- non-vacuity: DO SGA, "a", IAC NOP, "b", IAC IAC is in the domain; a stream with SB is not -/
+example : inDomain [255, 253, 3, 97, 255, 241, 98, 255, 255] = true ∧
+    inDomain [255, 250, 24, 1, 255, 240] = false := by decide
+
 /-- feeding the parser segment by segment is feeding it the concatenation -/
 theorem negotiateSegs_flatten (s : St) (segs : List Bytes) :
     negotiateSegs s segs = negotiate s segs.flatten := by
